@@ -861,3 +861,48 @@ func oracleFinal(r *Run, s *sched, cfg cacheCfg, cache *ristretto.Cache[uint64, 
 
 // setEndBefore: the Set call had returned before the Get started (so its clock read precedes it).
 func setEndBefore(w, g *callRec) bool { return w.endSeq != 0 && w.endSeq < g.startSeq }
+
+// ---------------------------------------------------------------- known finding F8 (C04)
+
+func init() { streams["cache_f8"] = streamCacheF8 }
+
+// streamCacheF8 replays the witness of F8 with the public API only (free-running
+// goroutines, real time): keys a and b share the primary hash (conflicts 1 and 2).
+// Set(a); Del(b) removes a's accounting although a stays resident; Set(b, 202) is then
+// admitted by the policy but silently refused by the store: 202 is never passed to OnExit.
+func streamCacheF8(r *Run) {
+	exits := map[uint64]int{}
+	var mu sync.Mutex
+	cache, err := ristretto.NewCache(&ristretto.Config[uint64, uint64]{
+		NumCounters: 100, MaxCost: 100, BufferItems: 64, IgnoreInternalCost: true,
+		KeyToHash: func(k uint64) (uint64, uint64) { return 7, k }, // every key collides on the primary hash
+		OnExit: func(v uint64) {
+			mu.Lock()
+			exits[v]++
+			mu.Unlock()
+		},
+	})
+	if err != nil {
+		r.Fail("*", "NewCache: "+err.Error(), "")
+		return
+	}
+	r.Cases++
+	okA := cache.Set(1, 101, 1)
+	cache.Wait()
+	cache.Del(2)
+	cache.Wait()
+	okB := cache.Set(2, 202, 1)
+	cache.Wait()
+	_, foundB := cache.Get(2)
+	cache.Close()
+	mu.Lock()
+	defer mu.Unlock()
+	r.Emit("f8 okA=%v okB=%v foundB=%v exit101=%d exit202=%d", okA, okB, foundB, exits[101], exits[202])
+	if okB && exits[202] == 0 {
+		r.FailSig("C04", "F8", "value 202 (key 2) accepted but never passed to OnExit, not even by Close (keys 1 and 2 collide on the primary hash)",
+			"KeyToHash(k)=(7,k); Set(1,101,1); Wait; Del(2); Wait; Set(2,202,1); Wait; Close")
+	}
+	if exits[101] != 1 {
+		r.Fail("C04", fmt.Sprintf("value 101 exited %d times", exits[101]), "F8 witness history")
+	}
+}
